@@ -14,6 +14,7 @@ import (
 	"github.com/llir/llvm/ir/enum"
 	"github.com/llir/llvm/ir/metadata"
 	"github.com/llir/llvm/ir/types"
+	"github.com/llir/llvm/ir/value"
 	"github.com/llir/llvm/verifhook"
 )
 
@@ -175,6 +176,57 @@ func init() {
 		}
 		if len(m2.Funcs) != 1 || len(m2.Funcs[0].Blocks) != 1 || m2.Funcs[0].Blocks[0].LocalName != name {
 			return "FAIL"
+		}
+		if name == "" {
+			return "ok"
+		}
+		// the label among CONFUSABLE TWINS (byte strings a decoder that normalises digits, signs or quotes would identify with it), each block
+		// referred to by a branch and by a blockaddress constant: every reference must come back as the block of exactly that name
+		names := []string{name}
+		for _, tw := range []string{"0" + name, "+" + name, name + "0", "\"" + name + "\""} {
+			dup := false
+			for _, n := range names {
+				dup = dup || n == tw
+			}
+			if !dup {
+				names = append(names, tw)
+			}
+		}
+		m = ir.NewModule()
+		f = m.NewFunc("f", types.Void)
+		var blocks []*ir.Block
+		for _, n := range names {
+			blocks = append(blocks, f.NewBlock(n))
+		}
+		for i, b := range blocks {
+			if i+1 < len(blocks) {
+				b.NewBr(blocks[i+1])
+			} else {
+				b.NewRet(nil)
+			}
+			m.NewGlobalDef(fmt.Sprintf("a%d", i), constant.NewBlockAddress(f, b))
+		}
+		m2, err = asm.ParseString("x.ll", m.String())
+		if err != nil {
+			return "FAIL twins-error"
+		}
+		if len(m2.Funcs) != 1 || len(m2.Funcs[0].Blocks) != len(names) || len(m2.Globals) != len(names) {
+			return "FAIL twins-shape"
+		}
+		for i, b := range m2.Funcs[0].Blocks {
+			if b.LocalName != names[i] {
+				return "FAIL twins-label"
+			}
+			if i+1 < len(names) {
+				br, ok := b.Term.(*ir.TermBr)
+				if !ok || br.Target != value.Value(m2.Funcs[0].Blocks[i+1]) {
+					return "FAIL twins-branch-target"
+				}
+			}
+			ba, ok := m2.Globals[i].Init.(*constant.BlockAddress)
+			if !ok || ba.Block != value.Value(b) {
+				return "FAIL twins-blockaddress"
+			}
 		}
 		return "ok"
 	})
